@@ -680,6 +680,13 @@ func c01Generated(r *ev.Recorder) {
 		src := gogenProgram(c, 3, 3)
 		b := roundTrip("gen.go", []byte(src), ggRealName, a2j.Hooks{})
 		r.Eval(1)
+		if b.Kind == "ok" && c.Devs <= 2 {
+			if b2 := roundTrip("gen.go", []byte(src), ggRealName, a2j.Hooks{EarlyAdd: true, UseFunc: func(int, string) bool { return true }}); b2.Kind != "ok" {
+				b = b2
+				b.Kind += "(early-add+Func-forms)"
+			}
+			r.Eval(1)
+		}
 		mu.Lock()
 		kinds[b.Kind]++
 		mu.Unlock()
@@ -691,7 +698,7 @@ func c01Generated(r *ev.Recorder) {
 		}
 		if b.violation() {
 			desc := fmt.Sprintf("generated program (choice vector %v): %s: %s", c.Vector(), b.Kind, b.Detail)
-			r.Violate(ev.Violation{Signature: "c01:gen:" + b.Kind + ":" + problemKind(b.Detail), What: jhShort(desc, 400), Case: ev.JSON(c01Case{Kind: "gen", Vector: c.Vector(), Desc: desc}),
+			r.Violate(ev.Violation{Signature: "c01:gen:" + b.Kind + ":" + problemKind(b.Detail), What: jhShort(desc, 400), Case: ev.JSON(c01Case{Kind: "gen", Vector: c.Vector(), Early: strings.Contains(b.Kind, "early-add"), Desc: desc}),
 				Detail: b.Detail + "\n--- program\n" + src + "\n--- rendered\n" + b.Output})
 		}
 		if c.Devs == 2 && c.Points()%17 == 0 && r.WantSample() {
@@ -717,6 +724,6 @@ func jhShort(s string, n int) string {
 
 func c01ReplayGenerated(c c01Case) (bool, string) {
 	src := gogenProgram(explore.NewReplay(c.Vector), 3, 3)
-	b := roundTrip("gen.go", []byte(src), ggRealName, a2j.Hooks{})
+	b := roundTrip("gen.go", []byte(src), ggRealName, c01Hooks(c.Early))
 	return !b.violation(), fmt.Sprintf("%s %s\n--- program\n%s\n--- rendered\n%s", b.Kind, b.Detail, src, b.Output)
 }
